@@ -106,7 +106,8 @@ static Verdict evaluate(const BcCase &c, const c10_out &o, bool &hang) {
                       (caller_in_pool ? "thread " + std::to_string(caller_idx) : std::string("external")) + " n=" + std::to_string(c.nthreads) +
                       " running_mask=" + std::to_string(o.running_mask) + ")";
     // documented argument rules
-    if (cbapi && ((fl & (FL_SYNC | FL_SYNC_USLEEP)) || !caller_in_pool)) {
+    // (cbsend needs a thread object to deliver the completion to: a pool thread of this pool or of ANOTHER pool, not a plain thread)
+    if (cbapi && ((fl & (FL_SYNC | FL_SYNC_USLEEP)) || x.caller_cur == 0)) {
       PBT_REQUIRE(x.rc == EINVAL, tag << ": invalid cbsend arguments returned " << x.rc);
       PBT_REQUIRE(x.cb.empty() && x.done.empty(), tag << ": callbacks ran although the call was refused");
       label("refused_by_argument_rule");
@@ -216,8 +217,8 @@ static Verdict evaluate(const BcCase &c, const c10_out &o, bool &hang) {
       for (size_t q = 1; q < iv.size(); q++)
         PBT_REQUIRE(iv[q - 1].second < iv[q].first, tag << ": one-by-one callbacks overlap (threads " << order[q - 1] << " and " << order[q] << ")");
       std::vector<int> expect;
-      bool self_first = (fl & FL_SELF_DIRECT) && !(fl & FL_SELF_SKIP);
-      bool self_last = !(fl & (FL_SELF_DIRECT | FL_SELF_SKIP));
+      bool self_first = caller_in_pool && (fl & FL_SELF_DIRECT) && !(fl & FL_SELF_SKIP);  // a caller from another pool is no receiver at all
+      bool self_last = caller_in_pool && !(fl & (FL_SELF_DIRECT | FL_SELF_SKIP));
       std::vector<int> seen = order;
       if (self_first && !seen.empty()) { PBT_REQUIRE(seen.front() == caller_idx, tag << ": caller not first with SELF_DIRECT"); seen.erase(seen.begin()); }
       if (self_last && !seen.empty() && std::find(seen.begin(), seen.end(), caller_idx) != seen.end()) {
@@ -320,7 +321,7 @@ static rc::Gen<BcCase> genCase() {
       std::vector<int> run;
       for (int t = 0; t < c.nthreads; t++) if (!((dm >> t) & 1) && !(c.skip_first && t == 0)) run.push_back(t);
       if (run.empty()) b.in_pool = 0; else b.pool_idx = *rc::gen::elementOf(run);
-      if (b.api == 0 && *range<int>(0, 5) == 0) b.in_pool = 2;  // bsend_ex issued by a thread that belongs to another pool
+      if (*range<int>(0, 5) == 0) b.in_pool = 2;  // issued by a thread that belongs to another pool (for cbsend: the only way to broadcast into a pool from outside)
       int fl = 0;
       if (*range<int>(0, 2) == 0) fl |= FL_SELF_DIRECT;
       if (*range<int>(0, 3) == 0) fl |= FL_FORCE;
